@@ -39,7 +39,6 @@ KnownTable ==
      <<"G1", "def-collide", "C01/DuplicateItem", "C01-dup-type-after-sanitize">>,
      <<"G3", "nullable-def-inner", "C01/DuplicateItem", "C01-inner-name-collision">>,
      <<"F3", "strs-null", "C01/DuplicateItem", "C01-untyped-enum-with-null-duplicate">>,
-     <<"G2", "one-tuple", "C01/CompileError", "C01-one-tuple-default">>,
      <<"G2", "flatten-default", "C01/Unparsable", "C01-flattened-member-in-default">>,
      <<"G2", "bad-string-default", "C01/RenderPanic", "C01-invalid-default-render-panic">>,
      <<"G2", "unit-default", "C01/RenderPanic", "C01-unit-default-render-panic">> >>
